@@ -1,7 +1,7 @@
 SPECIFICATION FairSpec
 CONSTANTS
   OneShellFlag = TRUE
-  MaxPre = 2
+  MaxPre = 3
   Emit = TRUE
 INVARIANTS ClosedOnlyAfterFull OpenWhileNotFull NoHelpAfterGone ExitsWithSuccess StaysWhileShellAttached
 PROPERTIES ClosesAfterFull ShellUndisturbed ExitsAtNextLine
